@@ -14,6 +14,9 @@ from . import analysis
 
 rule("C12.a", "time homogeneity: whatever reaches c, l, u, b or a dispatch factor has time degree 0 (each rate meets exactly one "
               "step length, each duration is converted to steps), and no two quantities of different degree are added", floor=30)
+rule("C12.k", "a window of accumulated step lengths (how many steps fit into a duration given by the user) is measured from every start "
+              "position it is used for: inside a loop over start positions the running sum starts at the loop's position - a number of steps "
+              "determined once assumes that all steps are equally long (daylight saving, months, grids cut by the horizon)", floor=1, props=["C12", "C05"])
 rule("C12.f", "a running sum of step lengths is compared with a duration given by the user with a tolerance: k steps of 1/24 day do not sum "
               "to exactly k/24, so an exact <= drops the last step for some main time units", floor=1)
 rule("C12.h", "a conversion helper returns the converted quantity on every path: what it returns is the result of the unit conversion, "
@@ -58,7 +61,7 @@ rule("C16.l", "scaled asset: what it adds to the cost vector - the fix costs of 
               "units (time degree 0), like every other entry of c; not rate x number of steps", floor=1)
 
 
-@analysis("degrees", ["C12.a", "C02.a", "C02.b", "C12.c", "C19.d", "C08.e", "C12.e", "C20.j", "C12.f", "C12.h", "C12.i", "C16.l"])
+@analysis("degrees", ["C12.a", "C02.a", "C02.b", "C12.c", "C19.d", "C08.e", "C12.e", "C20.j", "C12.f", "C12.k", "C12.h", "C12.i", "C16.l"])
 def run(ctx):
     p = ctx.p
     summaries = {}
@@ -243,6 +246,43 @@ def run(ctx):
                    "a running sum of step lengths is compared exactly with %s: in main time units in which a step is not exactly representable "
                    "(hours on a grid in days: 1/24) ten steps sum to slightly more than 10/24 and the tenth step drops out of the window - "
                    "the same storage with max_store_duration of 10 hours is worth 100 in 'h' and 'min' but 99 in 'd'" % au.short(other, 40), node=n)
+            # ---- C12.k: the window is measured from every start position (steps differ in length)
+            loops = [a for a in p.ancestors(n) if isinstance(a, (ast.For, ast.While))]
+            accx = acc[0]
+            lv = set()
+            for lp in loops:
+                if isinstance(lp, ast.For):
+                    lv |= set(au.target_names(lp.target))
+            dep = False
+            for c in au.walk_local(accx):
+                if isinstance(c, ast.Subscript) and (au.names_in(c.slice) & lv):
+                    dep = True
+            if not dep:
+                onodes = ctx.origins(fn, values_only=False).nodes(accx, st_n)
+                dep = any(isinstance(y, ast.Subscript) and (au.names_in(y.slice) & lv) for y in onodes)
+            if dep:
+                ctx.ob("C12.k", fn, au.short(n, 80), True, ok_detail="accumulated from the position of the enclosing loop", node=n,
+                       key="window of accumulated step lengths is measured from each start position")
+            else:
+                # computed once: does the result steer a loop that builds one row / entry per start position?
+                tainted = set(au.target_names(st_n.targets[0])) if isinstance(st_n, ast.Assign) else set()
+                later = [s2 for s2 in au.walk_stmts(fn.body) if s2.lineno > st_n.lineno]
+                hit = None
+                for s2 in later:
+                    if isinstance(s2, ast.Assign) and tainted & au.names_loaded(s2.value):
+                        tainted |= set(au.target_names(s2.targets[0]))
+                    if isinstance(s2, (ast.For, ast.While)) and hit is None:
+                        used = {x.id for b0 in [s2] + list(au.walk_stmts(s2.body)) for x in au.walk_own(b0) if isinstance(x, ast.Name) and isinstance(x.ctx, ast.Load)}
+                        if tainted & used:
+                            hit = s2
+                ctx.ob("C12.k", fn, au.short(n, 80), False if (hit is not None and not loops) else None,
+                       ("the number of steps that fit into %s is determined once, from the steps at the beginning of the window (%s), and then used "
+                        "for every start position in the loop at line %s: where steps differ in length (a 25 h day at the end of daylight saving "
+                        "time, calendar months, an asset grid cut by the horizon) a window further on spans more time than allowed - commodity "
+                        "is held for 49 h with a maximum holding time of 48 h, whatever the main time unit"
+                        % (au.short(other, 40), au.short(accx, 40), hit.lineno)) if hit is not None else
+                       "the accumulated step lengths do not depend on an enclosing loop and no later loop uses the result", node=n,
+                       key="window of accumulated step lengths is measured from each start position")
     ctx.require(n_f >= 1, "no comparison of accumulated step lengths with a duration found (max_store_duration window)", rules=['C12.f'])
 
     # ================================================================= C12.h converters return the converted value
